@@ -85,6 +85,20 @@ pub fn run(data: &[u8], ctx: &mut Ctx) -> Outcome {
         }
         M::Elided(_) => {
             ctx.class("elided-subject");
+            // whether an elided subject is refused or its placeholder encrypted is not the property's business;
+            // but IF the library hands out an encrypted form, that form has the original's digest and opens,
+            // with the same key, to the envelope it was made from
+            if let Ok(enc) = enc {
+                check!(ctx, d32(&enc.digest()) == model.digest(), "encrypt_subject", "C08/encrypt_subject/digest", "encrypted form of {} (elided subject) does not have the original's digest", m.show());
+                if enc.to_cbor_data() != orig_bytes {
+                    ctx.class("elided-subject:placeholder-encrypted");
+                    let dec = nopanic!(ctx, enc.decrypt_subject(&key), "decrypt_subject", "C08/decrypt_subject/elided-subject");
+                    let dec = tryp!(ctx, dec.map_err(|x| format!("the library encrypted the elided subject of {} but cannot decrypt its own result with the same key: {}", m.show(), x)), "decrypt_subject", "C08/decrypt_subject/elided-subject");
+                    check!(ctx, dec.to_cbor_data() == orig_bytes, "decrypt_subject", "C08/decrypt_subject/elided-subject", "decrypt(encrypt(e)) differs from e = {} (elided subject)", m.show());
+                    let bad = nopanic!(ctx, enc.decrypt_subject(&other), "wrong-key", "C08/wrong-key");
+                    check!(ctx, bad.is_err(), "wrong-key", "C08/wrong-key", "decrypt_subject succeeded with a different key (elided subject)");
+                }
+            }
         }
         _ => {
             let enc = tryp!(ctx, enc.map_err(|x| format!("encrypt_subject failed on {}: {}", m.show(), x)), "encrypt_subject", "C08/encrypt_subject");
